@@ -3,6 +3,7 @@ mod fault_layer;
 mod host_layer;
 mod mseg_layer;
 mod probe;
+mod refence;
 mod store_layer;
 mod util;
 
@@ -43,6 +44,7 @@ fn main() {
                 walkit::store::build_log(&d, &w, 0, true).map(|log| store_layer::crash_during_recovery(&r, &[log]))
             }
             Some("store-mseg") => mseg_layer::replay(&case, &mut st),
+            Some("store-refence") | Some("host-refence") => refence::replay(&case, &mut st),
             Some("store-mseg-cycle2") => {
                 walkit::mseg::MSpec::parse(case["word"].as_str().unwrap_or("")).ok_or("bad word".to_string()).and_then(|spec| {
                     let d = walkit::fresh_dir(&mc::scratch_root(), "replay-mcycle2");
@@ -66,6 +68,10 @@ fn main() {
         r.finish();
     }
 
+    if std::env::args().any(|a| a == "--probe-epoch-gap") {
+        probe::epoch_gap();
+        std::process::exit(0);
+    }
     if std::env::args().any(|a| a == "--probe") {
         probe::run();
         std::process::exit(0);
@@ -78,6 +84,7 @@ fn main() {
     if only.is_empty() || only.contains("mseg") {
         let mlogs = mseg_layer::run(&r);
         mseg_layer::crash_during_recovery(&r, &mlogs);
+        refence::run(&r, &mlogs);
     }
     let host = if only.is_empty() || only.contains("host") || only.contains("fault") {
         host_layer::run(&r)
